@@ -470,6 +470,16 @@ def tags_rule(rep, prog, cfg, hs, cases, common):
         if "std::collections::hash::map::HashMap::entry" in ns:
             leaves, _ = fl.sources([op_local(t["args"][1])], through_call=lambda t2, k=None: (0,), follow_mut=False)
             tf = any(x[0] == "call" and any(n.endswith("::try_from") for n in callee_names(hs.blocks[x[1]]["t"])) for x in leaves)
+            if not tf:
+                # the parse may be wrapped in a crate-private constructor of Tag (`Tag::from_field_name(key)` = try_from + unwrap)
+                for x in leaves:
+                    if x[0] != "call":
+                        continue
+                    fcx = callee(hs.blocks[x[1]]["t"])
+                    wb = prog.bodies.get((fcx or {}).get("inst") or (fcx or {}).get("def")) if fcx else None
+                    if wb is not None and wb.crate == "mpd_client" and not wb.raw.get("exported") and "tag::Tag" in wb.local_ty(0) and \
+                            any(any(n.endswith("::try_from") for n in callee_names(t2)) for _, t2 in wb.calls()):
+                        tf = True
             if tf and ("param", 2) in leaves:
                 ok_entry = True
     rep.check(ok_value, "C14.tags", cfg + "/value appended", hs.loc(hs.span),
